@@ -21,12 +21,23 @@ Inductive step :=
 | SBatch (ops : list bop) (ok : bool)       (* NewBatch, ops in call order, ExecuteBatch returned nil? *)
 | SOpen (rid : Z)                           (* store.Reader() *)
 | SRead (rid : Z) (r : rd)
-| SClose (rid : Z).
+| SClose (rid : Z)
+(* persisting configurations (CSeqCfg): the harness waited until moss' persister reported no dirty
+   segment (everything is in the lower-level store, later fresh readers read from there) *)
+| SSync
+(* all readers closed, the store closed and opened again with the same configuration over the same
+   lower-level store (boltdb / goleveldb / mossStore files) *)
+| SReopen.
 
 Inductive case :=
 (* store: 0 gtreap, 1 boltdb, 2 goleveldb, 3 moss, 4 metrics over gtreap;
    mo: 0 cat, 1 catnp, 2 upsidedown's mergeOperator *)
 | CSeq (store mo : Z) (steps : list step)
+(* the same for a non-default store configuration: moss (store = 3) over a lower-level store
+   ll: 0 gtreap, 1 boltdb, 2 goleveldb (registry stores, llStore in moss/lower.go), 3 mossStore,
+   with mossLowerLevelMaxBatchSize = maxbatch (0 = unset).  The configuration is recorded for the
+   replay files only: the statement is the same ordered map for every configuration. *)
+| CSeqCfg (store mo : Z) (ll maxbatch : Z) (steps : list step)
 (* direct calls of upsidedown's operator (obtained from a store constructor it was passed to) *)
 | CMopFull (key : bytes) (existing : option bytes) (operands : list bytes) (impl : option bytes)
 | CMopPartial (key l r : bytes) (impl : option bytes).
@@ -87,6 +98,8 @@ Definition sop_of (s : step) : option sop :=
   | SBatch ops _ => Some (OpBatch ops)
   | SOpen rid => Some (OpOpen rid)
   | SClose rid => Some (OpClose rid)
+  | SSync => Some OpSync
+  | SReopen => Some OpReopen
   | SRead _ _ => None
   end.
 
@@ -115,6 +128,16 @@ Fixpoint check_steps (ws : bool) (pol : policy) (mo : merge_op) (v : variant) (s
           | Some st' => check_steps ws pol mo v st' rest
           | None => false
           end
+      | SSync =>
+          match store_step pol mo st OpSync with
+          | Some st' => check_steps ws pol mo v st' rest
+          | None => false
+          end
+      | SReopen =>
+          match store_step pol mo st OpReopen with
+          | Some st' => check_steps ws pol mo v st' rest
+          | None => false
+          end
       end
   end.
 
@@ -122,7 +145,7 @@ Definition init_state : sstate := {| st_map := []; st_readers := [] |}.
 
 Definition check_gen (ws : bool) (c : case) : bool :=
   match c with
-  | CSeq store mo steps =>
+  | CSeq store mo steps | CSeqCfg store mo _ _ steps =>
       check_steps ws (policy_of_store store) (mo_of mo) (variant_of_store store) init_state steps
   | CMopFull key ex operands impl => obytes_eqb (udc_full key ex operands) impl
   | CMopPartial key l r impl => obytes_eqb (udc_partial key l r) impl
@@ -172,7 +195,7 @@ Fixpoint explain_steps (pol : policy) (mo : merge_op) (v : variant) (st : sstate
 
 Definition explain (c : case) : list expl :=
   match c with
-  | CSeq store mo steps =>
+  | CSeq store mo steps | CSeqCfg store mo _ _ steps =>
       explain_steps (policy_of_store store) (mo_of mo) (variant_of_store store) init_state steps
   | CMopFull key ex operands _ => [EMop (udc_full key ex operands)]
   | CMopPartial key l r _ => [EMop (udc_partial key l r)]
